@@ -237,7 +237,13 @@ def handleMet (ws : List String) : String :=
         ((Spec.c02 P.msa flag implT msg).map ("SPEC " ++ ·)) ++
         ((Spec.c03 P.t0 P.t8 data ids implT).map ("SPEC " ++ ·)) ++
         ((Spec.c04 data ids implT).map ("SPEC " ++ ·)) ++
-        (if implT.length == nw then [] else ["SPEC C05.n_which-vs-table-length"])
+        (if implT.length == nw then [] else ["SPEC C05.n_which-vs-table-length"]) ++
+        -- the base height is the configured percentile of the selected member hits (exact percentile of the
+        -- time-ordered, look-back-cut, exclusion-filtered selection; the float result must be within 1e-9)
+        (implT.filterMap fun r =>
+          match calcBase percentile (selectSorted K data (baseMask P data ids r.cid)) P.lookback P.basePerc with
+          | .ok b => if Spec.close r.base b then none else some s!"SPEC C04.base-is-the-configured-percentile cid={r.cid} impl={showRat r.base} exact={showRat b}"
+          | .error _ => some s!"SPEC C04.base-selection-empty cid={r.cid}")
       let all := kfind ++ argfind ++ cmp ++ spec
       if all.isEmpty then "MET ok" else "MET " ++ "; ".intercalate all
   | _, _ => "MET bad-request data-or-table"
